@@ -151,14 +151,14 @@ fn suite_classes(g: &Gram, out: &mut Out, rng: &mut Rng, path: &str, reps: usize
 /// every opcode in the three contexts (module level / in function outside a block / in a block)
 fn suite_sweep(g: &Gram, out: &mut Out, rng: &mut Rng) {
     let gen = Gen { g };
+    // declaration-free instructions (nothing else is emitted along with them)
     let mk = |op: u32, rng: &mut Rng| -> SInst {
-        for _ in 0..50 {
-            let mut c = Ctx::new();
-            let i = gen.inst(op, rng, &mut c, &Plan::random());
-            if c.decls.is_empty() { return i; }
-        }
         let mut c = Ctx::new();
-        gen.inst(op, rng, &mut c, &Plan::random())
+        NO_CTX.with(|x| x.set(true));
+        let i = gen.inst(op, rng, &mut c, &Plan::random());
+        NO_CTX.with(|x| x.set(false));
+        assert!(c.decls.is_empty(), "vh: sweep instruction must not need declarations");
+        i
     };
     let f = |rng: &mut Rng| mk(54, rng);
     for &op in g.insts.keys() {
@@ -166,6 +166,9 @@ fn suite_sweep(g: &Gram, out: &mut Out, rng: &mut Rng) {
         out.ev(load_event(&[x.clone()], 0x0001_0000, 9, "sweep-global", false));
         out.ev(load_event(&[f(rng), x.clone(), mk(248, rng), mk(253, rng), mk(56, rng)], 0x0001_0000, 9, "sweep-function", false));
         out.ev(load_event(&[f(rng), mk(248, rng), x.clone(), mk(253, rng), mk(56, rng)], 0x0001_0000, 9, "sweep-block", false));
+        // inside a function, after a block has been closed; and in the second block of a function
+        out.ev(load_event(&[f(rng), mk(248, rng), mk(253, rng), x.clone(), mk(56, rng)], 0x0001_0000, 9, "sweep-after-block", false));
+        out.ev(load_event(&[f(rng), mk(248, rng), mk(253, rng), mk(248, rng), x.clone(), mk(253, rng), mk(56, rng)], 0x0001_0000, 9, "sweep-second-block", false));
     }
 }
 
@@ -335,6 +338,37 @@ fn suite_raw(g: &Gram, out: &mut Out, rng: &mut Rng, n: usize) {
     }
 }
 
+/// Context-dependent literals of every declared width with boundary bit patterns (high bits set above a narrow
+/// type's width, sign bits, all ones): OpConstant / OpSpecConstant after their type, OpSwitch on typed selectors.
+/// Layout-ordered, so the round trip must be word-identical.
+fn suite_literals(out: &mut Out, rng: &mut Rng) {
+    let pats32 = [0u32, 1, 0x7f, 0x80, 0xff, 0x100, 0x7fff, 0x8000, 0xffff, 0x0001_0000, 0x0001_00ff, 0xffff_8000, 0xffff_ff80, 0x7fff_ffff, 0x8000_0000, 0xffff_ffff, 0x3f80_0000];
+    for &(is_int, w, signed) in &[(true, 8u32, 0u32), (true, 8, 1), (true, 16, 0), (true, 16, 1), (true, 32, 0), (true, 32, 1), (true, 64, 0), (true, 64, 1), (false, 16, 0), (false, 32, 0), (false, 64, 0)] {
+        let mut insts = vec![];
+        let t = 1u32;
+        insts.push(if is_int { SInst { op: 21, rt: None, rid: Some(t), ops: vec![SOp::one("LiteralBit32", w), SOp::one("LiteralBit32", signed)] } }
+                   else { SInst { op: 22, rt: None, rid: Some(t), ops: vec![SOp::one("LiteralBit32", w)] } });
+        let mut id = 2u32;
+        let lit = |p: u32, rng: &mut Rng| if w == 64 { SOp { k: "LiteralBit64".into(), w: vec![p, if p & 1 == 0 { p ^ 0xffff_0000 } else { rng.word() }], s: None } } else { SOp::one("LiteralBit32", p) };
+        for &p in &pats32 {
+            insts.push(SInst { op: if id % 2 == 0 { 43 } else { 50 }, rt: Some(t), rid: Some(id), ops: vec![lit(p, rng)] });
+            id += 1;
+        }
+        // a function whose block switches on a value of that type (selector = an OpUndef defined in the block)
+        let (tv, tf, f, l, u) = (id, id + 1, id + 2, id + 3, id + 4);
+        insts.push(SInst { op: 19, rt: None, rid: Some(tv), ops: vec![] });
+        insts.push(SInst { op: 33, rt: None, rid: Some(tf), ops: vec![SOp::one("IdRef", tv)] });
+        insts.push(SInst { op: 54, rt: Some(tv), rid: Some(f), ops: vec![SOp::one("FunctionControl", 0), SOp::one("IdRef", tf)] });
+        insts.push(SInst { op: 248, rt: None, rid: Some(l), ops: vec![] });
+        insts.push(SInst { op: 1, rt: Some(t), rid: Some(u), ops: vec![] });
+        let mut sw = vec![SOp::one("IdRef", u), SOp::one("IdRef", l)];
+        for &p in &[0x80u32, 0xffff_8000, 0xffff_ffff, 0x0001_00ff] { sw.push(lit(p, rng)); sw.push(SOp::one("IdRef", l)); }
+        insts.push(SInst { op: 251, rt: None, rid: None, ops: sw });
+        insts.push(SInst { op: 56, rt: None, rid: None, ops: vec![] });
+        out.ev(load_event(&insts, 0x0001_0500, 200, "literals", true));
+    }
+}
+
 pub fn drive(args: &[String]) {
     let g = Gram::load(arg(args, "--grammar").expect("--grammar"));
     let mut out = Out::create(arg(args, "--out").expect("--out"));
@@ -346,6 +380,7 @@ pub fn drive(args: &[String]) {
         "random" => suite_random(&g, &mut out, &mut rng, n),
         "raw" => suite_raw(&g, &mut out, &mut rng, n),
         "enums" => suite_enums(&g, &mut out, &mut rng),
+        "literals" => suite_literals(&mut out, &mut rng),
         "replay" => {
             let f = std::io::BufReader::new(std::fs::File::open(arg(args, "--histories").expect("--histories")).unwrap());
             for line in f.lines() {
